@@ -35,6 +35,19 @@ MISSED_FIRST = {
     "c20-destroy-lost-guard-wrong-dir": "T5-destroy-scope/lost-dir-is-not-a-database",
     "c19-repair-skips-logs-below-manifest": "T1-repair-logs",
     "c07-add-iterators-skips-deepest-level": "T2-all-levels",
+    "c06-filter-skips-repeated-user-keys": "T1-filter-every-key",
+    "c05-empty-batch-record-rejected": "T2-replay-record-size made exact (`size >= 12`, not merely implied)",
+    "c03-short-write-treated-as-complete": "T1-env-write/advance-by-result",
+    "c01-bloom-probes-with-configured-k": "T6-bloom-probes/stored-k",
+    "c19-repair-raw-filter-policy": "T6-policy-wrapping",
+    "c15-short-read-ends-log": "T1-env-read/short-read-continues",
+    "c12-read-error-after-partial-data-is-short-read": "T1-env-read/error-is-error",
+    "c12-twoiter-status-masks-latched-error": "T4-iterator-status-read/twoiter_status:child-only-if-error",
+    "c07-numiter-value-static-buffer": "T5-static-locals",
+    "c17-apply-overwrites-prev-log-number": "T2-apply-edit-numbers",
+    "c13-open-schedules-before-gc": "T1-gc-before-background",
+    "c11-merger-status-keeps-last-child": "T4-status-not-overwritten (a status is looked at before its variable is assigned again, on every path)",
+    "c18-current-empty-wraps-length": "(exit 2 at first: the C18 row matched the index expression by text; the row now matches any read of the buffer)",
     "c09-open-does-not-schedule-compaction": "T11-work-scheduled",
     "c07-dbiter-skip-bytewise-equal": "T12-dbiter-composition (db_iter.c tables were added after this seed arrived)",
 }
